@@ -195,7 +195,6 @@ ASSUME \A lo, hi, hi2 \in SymUniverse : (Le(lo, hi) /\ Le(hi, hi2)) =>
          \A t \in Subtypes(lo, hi), u \in Subtypes(lo, hi2) : Bits(t) <= Bits(u)
 
 \* recognisers on a few literal spellings
-Ch(s) == s   \* (sequences of 1-character strings are written out below)
 ASSUME /\ AccI(<<"-", "1", "2">>) /\ AccI(<<"+", "0">>) /\ ~AccI(<<"1", "_", "0">>) /\ ~AccI(<<>>) /\ ~AccI(<<"-">>)
        /\ AccF(<<"1", ".", "5">>) /\ AccF(<<".", "5">>) /\ AccF(<<"-", "1", "e", "-", "7">>) /\ AccF(<<"3">>)
        /\ ~AccF(<<"1", ".">>) /\ ~AccF(<<"i", "n", "f">>) /\ ~AccF(<<"n", "a", "n">>) /\ ~AccF(<<"1", "e">>)
